@@ -35,10 +35,12 @@ func errKind(err error) string {
 	switch {
 	case err == nil:
 		return "none"
-	case errors.Is(err, context.Canceled) || errors.Is(err, context.DeadlineExceeded):
-		return "ctx"
 	case errors.Is(err, vstore.ErrInjected):
 		return "injected"
+	case errors.Is(err, context.DeadlineExceeded):
+		return "ctx:deadline"
+	case errors.Is(err, context.Canceled):
+		return "ctx:canceled"
 	}
 	var ip vstore.InjectedPanic
 	if errors.As(err, &ip) || strings.Contains(err.Error(), "injected runtime panic") {
@@ -287,7 +289,13 @@ func runFault(sc *scn.Scenario, em func(vt.Ev), mode string, k int64, baseline *
 			desc = desc[:160]
 		}
 	}
-	sink.Emit(vt.Ev{"ev": "execret", "errkind": ek, "equal": equal, "timedout": timedout, "ms": ms, "desc": desc})
+	// the error a cancelled execution must report: the error of the context that was cancelled (the
+	// deadline's, when the caller's context timed out)
+	want := "ctx:canceled"
+	if mode == "deadline" {
+		want = "ctx:deadline"
+	}
+	sink.Emit(vt.Ev{"ev": "execret", "errkind": ek, "want": want, "equal": equal, "timedout": timedout, "ms": ms, "desc": desc})
 	qry.Close()
 	cancel()
 	sink.Emit(vt.Ev{"ev": "close"})
@@ -312,6 +320,9 @@ func runFault(sc *scn.Scenario, em func(vt.Ev), mode string, k int64, baseline *
 	}
 	if mode == "closecall" || mode == "deadline" {
 		rmode = "cancelcall" // Close() from another goroutine, or a deadline, cancels like Cancel() does
+	}
+	if mode == "errwrap" {
+		rmode = "err"
 	}
 	em(vt.Ev{"ev": "run", "mode": rmode, "k": k})
 	evs := sink.Drain()
@@ -354,7 +365,7 @@ func (d distEngine) NewRangeQuery(q storage.Queryable, opts *promql.QueryOpts, q
 func pickKs(r *rand.Rand, n int64, kinds []string, mode string, max int) []int64 {
 	var cand []int64
 	for k := int64(1); k <= n && int(k) <= len(kinds); k++ {
-		if (mode == "err" || mode == "errdown") && !canErrKinds[kinds[k-1]] {
+		if (mode == "err" || mode == "errdown" || mode == "errwrap") && !canErrKinds[kinds[k-1]] {
 			continue
 		}
 		cand = append(cand, k)
@@ -414,6 +425,12 @@ func famFault(sc *scn.Scenario, em func(vt.Ev)) {
 	base := runFault(sc, em, "none", 0, nil)
 	if base == nil {
 		em(vt.Ev{"ev": "skip", "why": "not native", "q": q})
+		em(vt.Ev{"ev": "end"})
+		return
+	}
+	if base.failed {
+		// a query that fails on its own says nothing about how faults are reported
+		em(vt.Ev{"ev": "skip", "why": "fails without a fault", "q": q})
 		em(vt.Ev{"ev": "end"})
 		return
 	}
